@@ -247,3 +247,42 @@ func muxAnimCorpus(r *rand.Rand, n int) []namedFile {
 	}
 	return out
 }
+
+// badFramesAnim: a well-formed animation container several of whose frames do not decode - the first one a large
+// lossless picture cut shortly before its end (fails late), a later one a lossy frame without its start code (fails
+// at once), the rest fine. Which error a frame-decoding call reports must not depend on who finishes first.
+func badFramesAnim(r *rand.Rand) []byte {
+	m := mux.NewMuxer()
+	m.SetCanvasSize(220, 220)
+	lo := webp.DefaultOptions()
+	lo.Lossless = true
+	big, _ := encode(img.Gen(r, "noise", "opaque", 200+r.Intn(20), 200+r.Intn(20)), lo)
+	bigBS := riffChunks(big)["VP8L"]
+	small := func(lossless bool) []byte {
+		o := webp.DefaultOptions()
+		o.Lossless = lossless
+		d, _ := encode(img.Gen(r, "photo", "opaque", 16+r.Intn(16), 16+r.Intn(16)), o)
+		if lossless {
+			return riffChunks(d)["VP8L"]
+		}
+		return riffChunks(d)["VP8 "]
+	}
+	add := func(bs []byte) { m.AddFrame(bs, &mux.FrameOptions{Duration: 30}) }
+	add(bigBS[:len(bigBS)-len(bigBS)/50-3]) // frame 0: fails late
+	add(small(true))
+	add(small(false))
+	add(small(true))
+	broken := append([]byte{}, small(false)...)
+	if len(broken) > 6 {
+		broken[3], broken[4], broken[5] = 0, 0, 0 // start code gone: fails at once
+	}
+	add(broken)
+	add(small(true))
+	cut := small(false)
+	add(cut[:len(cut)/2]) // a third bad frame
+	var b bytes.Buffer
+	if m.Assemble(&b) != nil {
+		return nil
+	}
+	return b.Bytes()
+}
